@@ -65,8 +65,8 @@ void h_cfg_peer(void)
 	if (renamed) {
 		bool copied = false;
 		if (p.name != NULL) copied = p.name != old_name && p.name[0] == newname[0] && (newname[0] == 0 || p.name[1] == newname[1]);
-		/* after a failed copy the peer may be left without a name or with its old, still allocated one - never with the released one */
-		__CPROVER_assert(verif_copy_failed ? (p.name == NULL || (p.name == old_name && !verif_old_released)) : copied, "C15.config.name-is-the-new-copy-or-absent-never-the-released-one");
+		/* the peer ends with the new copy, with its old, still allocated name, or (after a failed copy) without a name - never with the released one */
+		__CPROVER_assert((p.name == NULL && verif_copy_failed) || copied || (p.name == old_name && !verif_old_released), "C15.config.name-is-the-new-copy-or-absent-never-the-released-one");
 	}
 	__CPROVER_assert(verif_live_strings == (p.name != NULL ? 1u : 0u), "C15.config.old-name-released-exactly-once");
 	const char *shown = get_peer_name(&p);
